@@ -99,10 +99,22 @@ def gen_case(rng, nsteps, bias=None):
         elif r < 35: case.append("peer shut")
         elif r < 37: case.append("peer close")
         elif r == 37 and bias != "noclose": case.append("close")
+        elif r == 38 and rng.chance(1, 2): case.append("wbig")
         else: case.append("run")
     if rng.chance(1, 2):
         case.append(rng.choice(["peer close", "peer shut"]))
     case += ["run"] * rng.range(1, 4)
+    if rng.chance(1, 4) or bias == "afterlife":
+        # life of the stream after UV_EOF / a read error / uv_read_stop with the handle kept open: a queued write keeps
+        # the watcher armed for POLLOUT, then the peer closes fully and epoll reports HUP/ERR/OUT again
+        case.append(rng.choice(["peer shut", "peer shut", "stop", "peer w 3"]))
+        case += ["run"] * rng.range(1, 2)
+        if rng.chance(1, 3): case.append("stop")
+        if rng.chance(3, 4): case.append("wbig")
+        case += ["run"] * rng.range(0, 1)
+        case.append("peer close")
+        case += ["run"] * rng.range(1, 3)
+        if rng.chance(1, 3): case += ["start", "run"]
     case.append("end")
     return case
 
@@ -125,7 +137,8 @@ def monitor(case, out):
     allocs_in_run = 0
     closing = closed = False
     st = {"short": 0, "eagain": 0, "eintr": 0, "err": 0, "eof_read0": 0, "eof_synth": 0, "enobufs": 0, "cb_ops": 0,
-          "cap32": 0, "reads": 0, "bare": 0, "restart_after_eof": 0, "fdmsgs": 0}
+          "cap32": 0, "reads": 0, "bare": 0, "restart_after_eof": 0, "fdmsgs": 0, "events_while_quiet": 0,
+          "events_while_quiet_pollout_armed": 0, "wbig": 0}
     in_cb = False
     i = 0
     eof_seen = False
@@ -145,8 +158,13 @@ def monitor(case, out):
                     if w[2] == "fd": fdmsgs += 1; st["fdmsgs"] += 1
             elif w[1] == "run":
                 allocs_in_run = 0
+            elif w[1] == "wbig":
+                st["wbig"] += 1
         elif w[0] == "env" and w[1] == "poll":
             if int(w[2]) & 0x19 in (8, 16): st["bare"] += 1
+            if quiet and int(w[2]) & 0x1d:
+                st["events_while_quiet"] += 1
+                if int(w[2]) & 65536: st["events_while_quiet_pollout_armed"] += 1
         elif w[0] == "env" and w[1] == "read":
             cap = int(w[2][4:]); r = int(w[4]); st["reads"] += 1
             if pending is None:
